@@ -394,15 +394,12 @@ theorem dest_eq_iff {p : RrlParams} {v4len v6len : Nat} (hm : MasksOf p v4len v6
         exact ipv6_masked_eq_iff v6len (by omega) hm.v6le hi hi'
 
 
-/-- the name that identifies a NOERROR stream: the source of synthesis if there is one, else the QNAME -/
+/-- the name that identifies a NOERROR stream: the source of synthesis if there is one, else the
+    QNAME, else (no question at all) the root name -/
 def Context.streamName (c : Context) : List UInt8 :=
   match c.source_of_synthesis with
   | some s => s
-  | none => c.question.getD []
-
-/-- the `unwrap` in `process_response` is safe: a NOERROR response to a QUERY has a question -/
-def Context.WF (c : Context) : Prop :=
-  Category.ofExtendedRcode c.extended_rcode = .NoError → c.source_of_synthesis.isSome ∨ c.question.isSome
+  | none => c.question.getD ROOT_NAME
 
 /-- the key `process_response` builds, as a total function -/
 def keyFn (rs : RandomState) (p : RrlParams) (c : Context) : Key :=
@@ -411,10 +408,12 @@ def keyFn (rs : RandomState) (p : RrlParams) (c : Context) : Key :=
                   then rs.hashName (lowerName c.streamName) else 0,
     category := Category.ofExtendedRcode c.extended_rcode }
 
-theorem keyOf_ok (rs : RandomState) (p : RrlParams) (c : Context) (h : c.WF) :
+/-- computing the key never panics — for *every* context, with or without a question (this is
+    where the code before commit 2232f31 had `question.unwrap()`; the proof depends on the
+    extracted fact `RRL_QNAME_FALLBACK_IS_ROOT`) -/
+theorem keyOf_ok (rs : RandomState) (p : RrlParams) (c : Context) :
     keyOf rs p c = .ok (keyFn rs p c) := by
   unfold keyOf keyFn qnameHashOf Context.streamName
-  unfold Context.WF at h
   by_cases hc : Category.ofExtendedRcode c.extended_rcode = .NoError
   · simp only [hc, if_true]
     cases hs : c.source_of_synthesis with
@@ -422,15 +421,8 @@ theorem keyOf_ok (rs : RandomState) (p : RrlParams) (c : Context) (h : c.WF) :
     | none =>
       cases hq : c.question with
       | some q => simp
-      | none => simp [hc, hs, hq] at h
+      | none => simp [Gen.RRL_QNAME_FALLBACK_IS_ROOT]
   · simp only [hc, if_false]
-
-theorem keyOf_panic_iff (rs : RandomState) (p : RrlParams) (c : Context) :
-    keyOf rs p c = .panic ↔ ¬ c.WF := by
-  unfold keyOf qnameHashOf Context.WF
-  by_cases hc : Category.ofExtendedRcode c.extended_rcode = .NoError
-  · cases hs : c.source_of_synthesis <;> cases hq : c.question <;> simp [hc]
-  · simp [hc]
 
 /-- **Key construction** (C27, model side): two responses get the same key iff same address
     family, same masked destination, same category, and — for NOERROR only — same QNAME hash. -/
@@ -588,7 +580,6 @@ def NoBucketCollision (rs : RandomState) (p : RrlParams) (reqs : List Req) : Pro
 def NoInitialKey (rs : RandomState) (p : RrlParams) (reqs : List Req) : Prop :=
   ∀ q ∈ reqs, q.key? rs p ≠ some initialKey
 
-def AllWF (reqs : List Req) : Prop := ∀ q ∈ reqs, subjectToRrl q.ctx = true → q.ctx.WF
 
 /-- invariant of the table after the requests `past` -/
 def Inv (rs : RandomState) (p : RrlParams) (all past : List Req) (R : Rrl) (tlast : Nat) : Prop :=
@@ -624,7 +615,7 @@ theorem processResponse_not_subject (rs : RandomState) (R : Rrl) (now : Nat) (rn
   simp [h]
 
 theorem processResponse_subject (rs : RandomState) (R : Rrl) (now : Nat) (rnd : Bool) (c : Context)
-    (h : subjectToRrl c = true) (hwf : c.WF) (hsz : 1 ≤ R.params.size) (e : Entry) (a : Action)
+    (h : subjectToRrl c = true) (hsz : 1 ≤ R.params.size) (e : Entry) (a : Action)
     (hb : processBucket R.params (keyFn rs R.params c) (keyFn rs R.params c).category
       (R.buckets (bucketIdx rs R.params (keyFn rs R.params c))) now rnd = .ok (e, a)) :
     processResponse rs R now rnd c =
@@ -632,7 +623,7 @@ theorem processResponse_subject (rs : RandomState) (R : Rrl) (now : Nat) (rnd : 
   unfold processResponse
   have hz : ¬ R.params.size = 0 := by omega
   unfold bucketIdx at hb
-  simp only [h, Bool.not_true, Bool.false_eq_true, if_false, keyOf_ok rs R.params c hwf, hz, hb]
+  simp only [h, Bool.not_true, Bool.false_eq_true, if_false, keyOf_ok rs R.params c, hz, hb]
   rfl
 
 /-- the invariant is re-established after a subject request with key `k` whose bucket becomes `e'` -/
@@ -685,7 +676,7 @@ theorem inv_skip {rs : RandomState} {p : RrlParams} {all past : List Req} {R : R
     `process_response` over the remaining requests produces exactly the contexts the eager buckets
     (one per key) prescribe. -/
 theorem runAll_refines {rs : RandomState} {p : RrlParams} (hv : p.Valid) (all : List Req)
-    (hwf : AllWF all) (hnc : NoBucketCollision rs p all) :
+    (hnc : NoBucketCollision rs p all) :
     ∀ (rest past : List Req) (R : Rrl) (tlast : Nat), all = past ++ rest →
       Inv rs p all past R tlast → Mono tlast rest →
       runAll rs R rest = .ok (expectedFrom (keyDecision rs p) p past rest) := by
@@ -711,7 +702,7 @@ theorem runAll_refines {rs : RandomState} {p : RrlParams} (hv : p.Valid) (all : 
       | none =>
         rw [hb] at hIk
         have hpb := processBucket_create p (keyFn rs p q.ctx) (keyFn rs p q.ctx).category _ q.now q.rnd hIk
-        have hpr := processResponse_subject rs R q.now q.rnd q.ctx hs (hwf q hq hs) hsz _ _ (by rw [hRp]; exact hpb)
+        have hpr := processResponse_subject rs R q.now q.rnd q.ctx hs hsz _ _ (by rw [hRp]; exact hpb)
         rw [hRp] at hpr
         have hinv' := inv_step hnc hinv q hq _ hk htq _ (by rw [hb]; exact rel_create hv _ _ _) (Nat.le_refl _)
         simp only [runAll, hpr, ih _ _ _ hall' hinv' hmono', expectedFrom]
@@ -724,7 +715,7 @@ theorem runAll_refines {rs : RandomState} {p : RrlParams} (hv : p.Valid) (all : 
         obtain ⟨e', hpb, hrel', hle'⟩ :=
           processBucket_step hv (keyFn rs p q.ctx) (keyFn rs p q.ctx).category _ b q.now q.rnd hIk.1
             (Nat.le_trans hIk.2 htq)
-        have hpr := processResponse_subject rs R q.now q.rnd q.ctx hs (hwf q hq hs) hsz _ _ (by rw [hRp]; exact hpb)
+        have hpr := processResponse_subject rs R q.now q.rnd q.ctx hs hsz _ _ (by rw [hRp]; exact hpb)
         rw [hRp] at hpr
         have hinv' := inv_step hnc hinv q hq _ hk htq e' (by rw [hb]; exact hrel') hle'
         simp only [runAll, hpr, ih _ _ _ hall' hinv' hmono', expectedFrom]
@@ -857,11 +848,11 @@ theorem keyDecision_eq_specDecision (rs : RandomState) {p : RrlParams} {v4len v6
 /-- **Whole histories against the specification** (used by C26 and C27). -/
 theorem runAll_spec {rs : RandomState} {p : RrlParams} {v4len v6len : Nat} (hv : p.Valid)
     (hm : MasksOf p v4len v6len) (T₀ : Nat) (reqs : List Req)
-    (hwf : AllWF reqs) (hmono : Mono T₀ reqs) (hsrc : SourcesCanonical reqs)
+    (hmono : Mono T₀ reqs) (hsrc : SourcesCanonical reqs)
     (hnc : NoBucketCollision rs p reqs) (hni : NoInitialKey rs p reqs) (hinj : HashInjectiveOn rs reqs) :
     runAll rs (Rrl.new p T₀) reqs =
       .ok (expectedFrom (specDecision (cfgOf p v4len v6len)) p [] reqs) := by
-  rw [runAll_refines hv reqs hwf hnc reqs [] (Rrl.new p T₀) T₀ rfl (inv_new rs p reqs T₀ hni) hmono]
+  rw [runAll_refines hv reqs hnc reqs [] (Rrl.new p T₀) T₀ rfl (inv_new rs p reqs T₀ hni) hmono]
   congr 1
   apply expectedFrom_congr
   intro pre q post hr hs
@@ -951,7 +942,7 @@ theorem processBucket_no_panic {p : RrlParams} (hv : p.Valid) (key : Key) (cat :
   · simp [hk]
 
 theorem processResponse_no_panic (rs : RandomState) (R : Rrl) (hv : R.params.Valid) (now : Nat)
-    (rnd : Bool) (c : Context) (hwf : subjectToRrl c = true → c.WF) :
+    (rnd : Bool) (c : Context) :
     processResponse rs R now rnd c ≠ .panic := by
   by_cases hs : subjectToRrl c = true
   · cases hb : processBucket R.params (keyFn rs R.params c) (keyFn rs R.params c).category
@@ -959,7 +950,7 @@ theorem processResponse_no_panic (rs : RandomState) (R : Rrl) (hv : R.params.Val
     | panic => exact absurd hb (processBucket_no_panic hv _ _ _ _ _)
     | err x => exact nomatch x
     | ok r =>
-      rw [processResponse_subject rs R now rnd c hs (hwf hs) hv.size_pos r.1 r.2 hb]
+      rw [processResponse_subject rs R now rnd c hs hv.size_pos r.1 r.2 hb]
       simp
   · rw [processResponse_not_subject rs R now rnd c hs]
     simp
